@@ -40,9 +40,12 @@ def check_case(ctx: Ctx, c: Dict[str, Any], k: int = 0) -> None:
     g, g2 = mk_grid(c["g"]), mk_grid(c["g2"])
     D = g.ndim
     M, W, M2, Mwg = hom(c["M"]), hom(c["W"]), hom(c["M2"]), hom(c["Mwg"])
+    partial = [hom(m) for m in c["partial"]]
+    nonrigid = any(p["k"] == "ddf" for p in parts)
     holder = ("tensor", "param")[k % 2]
     sig0 = dict(model=name, D=D, holder=holder, ac=bool(c["g"]["ac"]))
     scale = max(1.0, float(W.abs().max()), float(Mwg.abs().max()))
+    cube = Axes.from_grid(g)
 
     def bad(view, msg, **kw):
         ctx.violation(dict(view=view, **sig0, **kw), f"{name}[{holder}] D={D}: {view}: {msg}", c)
@@ -54,16 +57,33 @@ def check_case(ctx: Ctx, c: Dict[str, Any], k: int = 0) -> None:
             bad(view, f"raised {type(ex).__name__}: {str(ex)[:150]}", exc=type(ex).__name__, **kw)
             return None
 
-    def cmp(view, got, exp, tol=None, **kw):
+    def cmp(view, got, exp, tol=None, mask=None, **kw):
         if got is None:
             return
         tol = tol or ATOL * scale
-        got = got.detach()
-        if tuple(got.shape) != tuple(exp.shape):
-            got = got.reshape(exp.shape) if got.numel() == exp.numel() else got
-        err = max_err(got, exp)
+        got = got.detach().to(torch.float64)
+        if got.numel() != exp.numel():
+            bad(view, f"result has shape {tuple(got.shape)}, expected {tuple(exp.shape)}", **kw)
+            return
+        d = (got.reshape(exp.shape) - exp).abs()
+        if mask is not None:
+            if int(mask.sum()) == 0:
+                return
+            d = d[mask]
+        err = float(d.max()) if torch.isfinite(d).all() else float("inf")
         if err > tol:
             bad(view, f"differs from the one world-space map by {err:.3g} (tol {tol:.2g})", **kw)
+
+    def inside(xc: torch.Tensor) -> torch.Tensor:
+        """Points (cube coordinates of g) that stay inside the domain through every member (linear interpolation exact)."""
+        # linear interpolation of the samples is exact only inside the hull of the sample centres:
+        # |x_i| <= 1 (align_corners) or 1 - 1/n_i (cube convention), minus a safety margin
+        lim = torch.tensor([(1.0 if g.align_corners() else 1.0 - 1.0 / n) - 0.02 for n in g.size()], dtype=torch.float64)
+        ok = (xc.abs() <= lim).all(dim=-1)
+        if nonrigid:
+            for Pk in partial:
+                ok &= (apply_hom(Pk, xc).abs() <= lim).all(dim=-1)
+        return ok
 
     # 0. freshly constructed = identity
     for h in ("tensor", "param"):
@@ -79,35 +99,49 @@ def check_case(ctx: Ctx, c: Dict[str, Any], k: int = 0) -> None:
         ctx.count(key=json.dumps([name, parts, c["g"]]))
         return
     P = probes(D)
+    P = P[inside(P)] if nonrigid else P
+    if P.shape[0] == 0:
+        raise MachineryError(f"no interior probe for {name}")
     x = P.float().unsqueeze(0)
-    # 1. tensor / matrix representation
-    T = guarded("tensor", lambda: as_homogeneous_matrix(t.tensor()))
-    if T is not None:
-        cmp("tensor", T[0], M)
-    if hasattr(t, "matrix") and t.linear and not hasattr(t, "transforms"):
-        Tm = guarded("matrix", lambda: t.matrix())
-        if Tm is not None:
-            cmp("matrix", Tm[0], M)
+    # 1. tensor / matrix representation (linear models)
+    if not nonrigid:
+        T = guarded("tensor", lambda: as_homogeneous_matrix(t.tensor()))
+        if T is not None:
+            cmp("tensor", T[0], M)
+        if hasattr(t, "matrix") and not hasattr(t, "transforms"):
+            Tm = guarded("matrix", lambda: t.matrix())
+            if Tm is not None:
+                cmp("matrix", Tm[0], M)
     # 2. point map in its own cube coordinates (call and forward)
     cmp("call", guarded("call", lambda: t(x)), apply_hom(M, P).unsqueeze(0))
     cmp("forward", guarded("forward", lambda: t.forward(x)), apply_hom(M, P).unsqueeze(0))
-    # 3. world-coordinate point API and other grids / axes
-    xw = (P * 5 + 1).float()
-    cmp("points[world]", guarded("points[world]", lambda: t.points(xw, axes="world")), apply_hom(W, xw), tol=ATOL * scale * 5)
+    # 3. world-coordinate point API and other grids / axes (the same physical points, other coordinates)
+    xw = g.transform_points(P.float(), axes=cube, to_axes="world").to(torch.float64)
     cube2 = Axes.from_grid(g2)
-    cmp("points[other grid cube]", guarded("points[other grid cube]", lambda: t.points(x[0], grid=g2, axes=cube2)), apply_hom(M2, P), tol=ATOL * scale * 5)
+    x2 = g.transform_points(P.float(), axes=cube, to_grid=g2, to_axes=cube2, decimals=None).to(torch.float64)
+    cmp("points[world]", guarded("points[world]", lambda: t.points(xw.float(), axes="world")), apply_hom(W, xw), tol=ATOL * scale * 5)
+    cmp("points[other grid cube]", guarded("points[other grid cube]", lambda: t.points(x2.float(), grid=g2, axes=cube2)), apply_hom(M2, x2), tol=ATOL * scale * 5)
     cmp("points[world->grid of other]", guarded("points[world->grid of other]",
-        lambda: t.points(xw, grid=g2, axes="world", to_grid=g2, to_axes="grid")), apply_hom(Mwg, xw), tol=ATOL * scale * 20)
-    pst = guarded("PointSetTransformer", lambda: PointSetTransformer(t, grid=g2, axes="world", to_grid=g2, to_axes="grid"))
+        lambda: t.points(xw.float(), grid=g2, axes="world", to_grid=g2, to_axes="grid")), apply_hom(Mwg, xw), tol=ATOL * scale * 20)
+    # explicit output grid different from the input grid
+    exp_og = g.transform_points(apply_hom(W, xw).float(), axes="world", to_axes="grid", decimals=None).to(torch.float64)
+    cmp("points[to_grid != grid]", guarded("points[to_grid != grid]",
+        lambda: t.points(x2.float(), grid=g2, axes=cube2, to_grid=g, to_axes="grid")), exp_og, tol=ATOL * scale * 20)
+    pst = guarded("PointSetTransformer", lambda: PointSetTransformer(t, grid=g2, axes="world", to_grid=g, to_axes="grid"))
     if pst is not None:
-        cmp("PointSetTransformer", guarded("PointSetTransformer", lambda: pst(xw.unsqueeze(0))), apply_hom(Mwg, xw).unsqueeze(0), tol=ATOL * scale * 20)
-    # 4. dense displacement on its own grid and on another grid
-    for view, gg, MM in (("disp[own]", g, M), ("disp[other]", g2, M2)):
-        co = gg.coords(align_corners=gg.align_corners()).to(torch.float64)  # (..., X, D) cube coords of gg
-        exp_u = (apply_hom(MM, co.reshape(-1, D)) - co.reshape(-1, D)).reshape(co.shape)
-        exp_u = exp_u.movedim(-1, 0).unsqueeze(0)
-        u = guarded(view, (lambda: t.disp()) if gg is g else (lambda: t.disp(g2)))
-        cmp(view, u, exp_u, tol=ATOL * scale * 5)
+        cmp("PointSetTransformer", guarded("PointSetTransformer", lambda: pst(xw.float().unsqueeze(0))), exp_og.unsqueeze(0), tol=ATOL * scale * 20)
+    # 4. dense displacement on its own grid, on the same grid with the other cube convention, and on another grid
+    for view, gg in (("disp[own]", g), ("disp[own, other align_corners]", g.align_corners(not g.align_corners())), ("disp[other]", g2)):
+        ax = Axes.from_grid(gg)
+        co = gg.coords(align_corners=gg.align_corners()).reshape(-1, D)  # cube coords of gg
+        sw = gg.transform_points(co, axes=ax, to_axes="world", decimals=None).to(torch.float64)
+        tw = apply_hom(W, sw)
+        exp_u = (gg.transform_points(tw.float(), axes="world", to_axes=ax, decimals=None).to(torch.float64) - co.to(torch.float64))
+        ins = inside(g.transform_points(sw.float(), axes="world", to_axes=cube, decimals=None).to(torch.float64))
+        u = guarded(view, (lambda: t.disp()) if gg is g else (lambda gg=gg: t.disp(gg)))
+        if u is not None:
+            u = u[0].movedim(0, -1).reshape(-1, D)
+            cmp(view, u, exp_u, tol=ATOL * scale * 20, mask=ins.unsqueeze(-1).expand_as(exp_u) if nonrigid else None)
     fl_ = guarded("flow", lambda: t.flow(g2))
     if fl_ is not None:
         if fl_.axes() is not Axes.from_grid(g2) or fl_.grid() != g2:
@@ -115,29 +149,30 @@ def check_case(ctx: Ctx, c: Dict[str, Any], k: int = 0) -> None:
     # 5. image warping: out(x_j) = source(W(x_j)) for a world-linear ramp image
     a = torch.tensor([0.7, -1.3, 0.4][:D], dtype=torch.float64)
     b = 2.0
-    src = g2
-    src_world = src.index_to_world(src.coords(normalize=False).to(torch.float32)).to(torch.float64)  # (..., D)
-    img = (src_world @ a + b).float().unsqueeze(0).unsqueeze(0)
-    for tgt_name, tgt in (("own", g), ("other", g2.resize(tuple(n + 1 for n in g2.size())))):
-        it = guarded("ImageTransformer", lambda: ImageTransformer(t, target=tgt, source=src, padding="border"), target=tgt_name)
-        if it is None:
-            continue
-        out = guarded("ImageTransformer", lambda: it(img), target=tgt_name)
-        if out is None:
-            continue
-        tw = tgt.index_to_world(tgt.coords(normalize=False).to(torch.float32)).to(torch.float64).reshape(-1, D)
-        wp = apply_hom(W, tw)
-        expv = wp @ a + b
-        inside = (src.world_to_cube(wp.float(), align_corners=True, decimals=None).abs() <= 0.98).all(dim=-1)
-        if int(inside.sum()) < 3:
-            continue
-        got = out.reshape(-1).to(torch.float64)
-        if got.shape[0] != expv.shape[0]:
-            bad("ImageTransformer", f"output has {got.shape[0]} samples, target grid has {expv.shape[0]}", target=tgt_name)
-            continue
-        err = float((got - expv)[inside].abs().max())
-        if err > 2e-4 * max(1.0, float(expv.abs().max())):
-            bad("ImageTransformer", f"warped ramp differs from source(W(x)) by {err:.3g} on {int(inside.sum())} inside samples", target=tgt_name)
+    for src_name, src in (("other", g2), ("own", g)):
+        src_world = src.index_to_world(src.coords(normalize=False).to(torch.float32)).to(torch.float64)
+        img = (src_world @ a + b).float().unsqueeze(0).unsqueeze(0)
+        for tgt_name, tgt in (("own", g), ("other", g2.resize(tuple(n + 1 for n in g2.size())))):
+            it = guarded("ImageTransformer", lambda: ImageTransformer(t, target=tgt, source=src, padding="border"), target=tgt_name, source=src_name)
+            if it is None:
+                continue
+            out = guarded("ImageTransformer", lambda: it(img), target=tgt_name, source=src_name)
+            if out is None:
+                continue
+            tw = tgt.index_to_world(tgt.coords(normalize=False).to(torch.float32)).to(torch.float64).reshape(-1, D)
+            wp = apply_hom(W, tw)
+            expv = wp @ a + b
+            ins = (src.world_to_cube(wp.float(), align_corners=True, decimals=None).abs() <= 0.97).all(dim=-1)
+            ins &= inside(g.transform_points(tw.float(), axes="world", to_axes=cube, decimals=None).to(torch.float64)) if nonrigid else True
+            if int(ins.sum()) < 3:
+                continue
+            got = out.reshape(-1).to(torch.float64)
+            if got.shape[0] != expv.shape[0]:
+                bad("ImageTransformer", f"output has {got.shape[0]} samples, target grid has {expv.shape[0]}", target=tgt_name, source=src_name)
+                continue
+            err = float((got - expv)[ins].abs().max())
+            if err > 3e-4 * max(1.0, float(expv.abs().max())):
+                bad("ImageTransformer", f"warped ramp differs from source(W(x)) by {err:.3g} on {int(ins.sum())} inside samples", target=tgt_name, source=src_name)
     ctx.count(key=json.dumps([name, parts, c["g"], c["g2"]]), nontrivial=True)
 
 
